@@ -27,7 +27,7 @@ TOL = Fraction(1, 10 ** 5)
 
 
 def group_tasks(tier):
-    gs = [g for g in (G_.QUICK if tier == "quick" else G_.CORE) if g.has_hess]
+    gs = [g for g in G_.CORE if g.has_hess]
     scal = ["d"] if tier == "quick" else ["d", "f"]
     return [(g.name, s) for g in gs for s in scal]
 
